@@ -37,6 +37,9 @@ def tasks(tier):
     for graft in ('SGD', 'RMSPROP'):
       for t0 in ((1,) if tier == 'quick' else (0, 1, 2)):
         out.append(dict(kind='tf', shape=b['shape'], cfg=dict(b['cfg'], graft=graft, start=t0)))
+  for i, b in enumerate(base):
+    if tier == 'thorough' or i in (0, 2, 3, 6):
+      out.append(dict(kind='tf', shape=b['shape'], cfg=dict(b['cfg'], graft='ADAFACTOR', start=1)))
   return out
 
 
@@ -81,8 +84,17 @@ def work(task):
   count = st_.count.item()
   rng = [count >= 0, count <= 2 ** 31 - 2]
   P = Prover(timeout_s=30, first_s=1.0)
-  acc = st_.norm.acc['w'] if c['graft'] == 'RMSPROP' else None
-  gs = graft_step(c, I, g, acc)
+  if c['graft'] == 'ADAFACTOR':
+    # the grafting optimizer's step is whatever the real optax.adafactor chain (as configured by grafting._adafactor) returns
+    # on the same state: traced alone, evaluated by the same evaluator (no reference model of AdaFactor is needed for C05)
+    ntx = grafting._adafactor(tfh.grafting_options(c))
+    trN = Traced(lambda gg, ss, pp: ntx.update(gg, ss, pp), (params, state.norm, params), name='n')
+    leavesN = jax.tree_util.tree_leaves((g_, st_.norm, p_), is_leaf=lambda x: isinstance(x, np.ndarray))
+    gsu, _ = trN.run(Interp(ctx), leavesN)
+    gs = gsu['w']
+  else:
+    acc = st_.norm.acc['w'] if c['graft'] == 'RMSPROP' else None
+    gs = graft_step(c, I, g, acc)
   is_masked = masked(c, shape)
   P.equal(f'{tag}|count+1', new.count, np.array(R.s_add(count, 1), dtype=object), rng)
   if is_masked:
@@ -156,7 +168,13 @@ def concrete(task, seed=0, T=5):
     if int(st2.count) != int(st.count) + 1:
       return f'step {t}: count advanced by {int(st2.count) - int(st.count)}'
     g64 = g.astype(np.float64)
-    if c['graft'] == 'SGD':
+    if c['graft'] == 'ADAFACTOR':
+      ntx = grafting._adafactor(tfh.grafting_options(c))
+      if t == 0:
+        nst = ntx.init(p)
+      gsj, nst = ntx.update(gj, nst, p)
+      gs = np.asarray(gsj['w'], np.float64)
+    elif c['graft'] == 'SGD':
       gs = g64
     else:
       b = c['graft_decay']
